@@ -1,6 +1,6 @@
 //! Circuit-level engines: translation to diagrams (C02), circuit transformations (C15).
 
-use crate::absg::{abs, canon};
+use crate::absg::{abs, abs_parts, canon};
 use crate::circ::*;
 use crate::util::{guarded, Tr};
 use quizx::circuit::Circuit;
@@ -281,6 +281,80 @@ pub fn record_extract(cj: &Value, tr: &mut Tr, thorough: bool) {
         } else {
             tr.emit(ev);
             tr.emit(eh);
+        }
+    }
+}
+
+/// C03, per-phase: one extraction with hook H4 installed; every phase of Extractor::extract is logged with
+/// the remaining diagram, the circuit so far and the frontier (mc/Trace_XSteps.tla)
+fn xsteps_one<G: GraphLike>(c: &Circuit, simp: &str, mode: &str, be: &str, tr: &mut Tr) {
+    use std::sync::{Arc, Mutex};
+    let steps: Arc<Mutex<Vec<Value>>> = Arc::new(Mutex::new(vec![]));
+    let r = crate::eng_simp::with_watchdog(30, {
+        let (c, simp, mode, steps) = (c.clone(), simp.to_string(), mode.to_string(), steps.clone());
+        move || {
+            let sink_steps = steps.clone();
+            quizx::extract::verif::set_sink(Some(Box::new(move |s: quizx::extract::verif::Step| {
+                let fr: Vec<Value> = s.frontier.iter().map(|&(q, v)| json!([q, v])).collect();
+                sink_steps.lock().unwrap().push(json!({"k": "xstep", "phase": s.phase, "g": abs_parts(&s.verts, &s.edges, &s.inputs, &s.outputs),
+                                                       "c": circ_json(&s.circuit), "fr": fr}));
+            })));
+            let r = guarded(|| {
+                let mut g: G = c.to_graph();
+                simp_by(&simp, &mut g);
+                let mut ex = Extractor::new(&mut g);
+                match mode.as_str() {
+                    "gflow" => {
+                        ex.gflow();
+                    }
+                    "simple" => {
+                        ex.gflow_simple_gauss();
+                    }
+                    "perm" => {
+                        ex.gflow().up_to_perm();
+                    }
+                    "flow" => {
+                        ex.flow();
+                    }
+                    _ => {}
+                }
+                match ex.extract() {
+                    Ok(c2) => Ok(circ_json(&c2)),
+                    Err(e) => Err(e.0.chars().filter(|ch| ch.is_ascii() && *ch != '"').take(100).collect::<String>()),
+                }
+            });
+            quizx::extract::verif::set_sink(None);
+            r
+        }
+    });
+    tr.emit(json!({"k": "xbegin", "simp": simp, "mode": mode, "be": be}));
+    for s in steps.lock().unwrap().iter() {
+        tr.emit(s.clone());
+    }
+    let end = match r {
+        None => json!({"k": "xend", "simp": simp, "mode": mode, "be": be, "res": "timeout"}),
+        Some(Err(m)) => json!({"k": "xend", "simp": simp, "mode": mode, "be": be, "res": "panic", "msg": m}),
+        Some(Ok(Err(m))) => json!({"k": "xend", "simp": simp, "mode": mode, "be": be, "res": "error", "msg": m}),
+        Some(Ok(Ok(out))) => json!({"k": "xend", "simp": simp, "mode": mode, "be": be, "res": "ok", "out": out}),
+    };
+    tr.emit(end);
+}
+
+pub fn record_xsteps(cj: &Value, tr: &mut Tr, thorough: bool, idx: usize) {
+    let c = circ_from_json(cj);
+    tr.group();
+    tr.emit(json!({"k": "circ", "c": cj}));
+    let mut combos: Vec<(&str, &str)> = vec![("clifford", "gflow"), ("full", "gflow"), ("full", "simple"), ("flow", "flow")];
+    if thorough {
+        combos.extend([("clifford", "simple"), ("flow", "gflow"), ("full", "perm"), ("interior", "gflow")]);
+    }
+    for (i, (s, m)) in combos.into_iter().enumerate() {
+        // alternate the backends (both when thorough)
+        if thorough || (idx + i) % 2 == 0 {
+            xsteps_one::<quizx::vec_graph::Graph>(&c, s, m, "vec", tr);
+        }
+        if thorough || (idx + i) % 2 == 1 {
+            xsteps_one::<quizx::hash_graph::Graph>(&c, s, m, "hash", tr);
         }
     }
 }
